@@ -4,6 +4,17 @@ from harness import gen_net, netsession
 from harness.gen_rf import rbytes
 
 DEFAULT = 0o4444
+_SPEC = {}
+
+
+def spec(q):
+    """evaluate an executable spec of lean/NrfModel/Spec/MeshProtocol.lean through the driver (memoised)"""
+    if q not in _SPEC:
+        r = run_driver([q])[0]
+        if r == "bad-op":
+            raise Infra("spec op failed: " + q)
+        _SPEC[q] = r
+    return _SPEC[q]
 
 
 def valid_addr(a):
@@ -54,6 +65,63 @@ def session(rng, njoin, nops):
     return ids, f"net {njoin + 1} 1 " + " ; ".join(ops)
 
 
+def _frame(frm, to, fid, ty, res, msg=b""):
+    import struct
+    return (struct.pack("<HHHBB", frm, to, fid, ty, res) + msg).hex()
+
+
+def scripted_joiner(rng):
+    """open system: one joiner against scripted POLL replies and address responses, none of which
+    it may accept (wrong ID in `reserved`, or an address that does not lie below the contact):
+    it must stay on the unassigned address — nothing it transmits may carry another `from_node`"""
+    nid = rng.randint(1, 255)
+    contact = rng.choice([0, 0, 0o1, 0o3, 0o5, 0o15, 0o25, 0o123])
+    lvl = 0
+    c = contact
+    while c:
+        c >>= 3
+        lvl += 1
+    child = contact | (rng.randint(1, 5) << (3 * lvl))
+    kind = rng.choice(["wrong-id", "wrong-id", "not-below", "not-below", "both", "acceptable", "acceptable"])
+    if kind == "acceptable":
+        # right ID, a direct child of the contact: the joiner must take the address (it then double-checks with
+        # the master, which does not exist here: lookup frames *from the offered address* appear on the air)
+        return ("net 1 0 " + " ; ".join([
+            f"new x mesh 0 {nid}",
+            f"env arrive x {rng.choice([2_000_000, 5_000_000, 20_000_000])} 0 {_frame(contact, DEFAULT, 1, 194, 0)}",
+            f"env arrive x {rng.choice([80_000_000, 100_000_000, 150_000_000])} 0 {_frame(0, DEFAULT, 2, 128, nid, child.to_bytes(2, 'little'))}",
+            f"x renew {rng.choice([200, 300])}"]))
+    rid = nid if kind == "not-below" else rng.choice([i for i in (0, nid ^ 1, nid ^ 0x80, (nid + 1) & 0xFF) if i != nid])
+    if kind == "wrong-id":
+        offered = child
+    else:
+        # an address whose low `lvl` digits are not the contact's (only possible below a real contact)
+        if lvl == 0:
+            kind, rid, offered = "wrong-id", rng.choice([i for i in (0, nid ^ 1) if i != nid]), child
+        else:
+            other = rng.choice([d for d in range(1, 6) if d != (contact & 7)])
+            offered = (child & ~7) | other
+    ops = [f"new x mesh 0 {nid}"]
+    # the contact answers the level poll of its own level; earlier levels stay silent (about 80 ms each)
+    t_poll = 5_000_000 + lvl * 0   # only the first request round is scripted precisely for level 0 contacts
+    ops.append(f"env arrive x {rng.choice([2_000_000, 5_000_000, 20_000_000])} 0 {_frame(contact, DEFAULT, 1, 194, 0)}")
+    for k in range(rng.randint(1, 3)):
+        ops.append(f"env arrive x {rng.choice([70_000_000, 100_000_000, 150_000_000, 250_000_000]) + k * 1000} 0 "
+                   f"{_frame(0, DEFAULT, 2 + k, 128, rid, offered.to_bytes(2, 'little') + bytes(rng.choice([0, 0, 2])))}")
+    ops.append(f"x renew {rng.choice([200, 300, 450])}")
+    return "net 1 0 " + " ; ".join(ops)
+
+
+def forced_release(rng):
+    """the master forcibly releases a joined node's lease: lookups of it give -2, check_connection with
+    ping_master is False, a re-join works"""
+    nid = rng.randint(1, 255)
+    ops = ["new m master 0 0", f"new x0 {rng.choice(['mesh', 'master'])} 1 {nid}", "x0 renew 1500", f"m lookup_address {nid}",
+           "m release_address Ax0", f"m lookup_address {nid}", f"x0 check_connection {rng.randint(1, 2)} T",
+           f"x0 lookup_address {nid}", "x0 renew 1500", f"m lookup_address {nid}", f"x0 check_connection 1 T"]
+    return "net 2 1 " + " ; ".join(ops)
+
+
 def resolve(line_ops, run):
     """`lookup_node_id A<name>` needs the node's current address: two-pass (run prefix, substitute)"""
     return line_ops
@@ -87,12 +155,16 @@ class C17(PropCheck):
         return " ; ".join(ops)
 
     def cases(self, res, tier, rng):
-        n = 40 if tier == "quick" else 500
+        n = 40 if tier == "quick" else 380
         cs = []
         for _ in range(n):
             nj = rng.choice([1, 2, 3, 4, 5, 6, 7, 9]) if tier == "quick" else rng.randint(1, 12)
             _, line = session(rng, nj, rng.randint(2, 8))
             cs.append((self._concrete(line), "mesh-join-lookup-send"))
+        for _ in range(30 if tier == "quick" else 150):
+            cs.append((scripted_joiner(rng), "joiner-vs-scripted-responses"))
+        for _ in range(6 if tier == "quick" else 20):
+            cs.append((self._concrete(forced_release(rng)), "forced-release"))
         return cs
 
     def nontrivial(self, line, io):
@@ -101,9 +173,61 @@ class C17(PropCheck):
     def judge(self, triples):
         out = []
         for l, io, mo in triples:
+            if l.startswith("net 1 0 new x mesh 0 "):
+                # open system: the joiner takes an offered address iff the response carries its ID and the address
+                # lies below the contact (Spec.MeshProtocol.accepts); otherwise it stays unassigned
+                parts = io.split(" ; ")
+                what = None
+                ops_ = l.split(" ; ")
+                nid_ = int(ops_[0].split()[-1])
+                arr = [o.split()[-1] for o in ops_ if " arrive " in o]
+                contact_ = int(arr[0][2:4] + arr[0][0:2], 16)
+                # Spec.MeshProtocol.accepts own-id contact type reserved offered
+                good = [int(a[18:20] + a[16:18], 16) for a in arr[1:]
+                        if spec(f"specaccepts {nid_} {contact_} {int(a[12:14], 16)} {int(a[14:16], 16)} "
+                                f"{int(a[18:20] + a[16:18], 16)}") == "1"]
+                if good:
+                    seen = False
+                    for part in parts:
+                        f = part.split(" ~ ")
+                        if len(f) == 4 and f[3] != "[]":
+                            for rec in f[3][1:-1].split(","):
+                                data = rec.rsplit("x", 1)[0].split("/")[-1]
+                                if len(data) >= 16 and int(data[2:4] + data[0:2], 16) == good[0] and data[12:14] == "c6":
+                                    seen = True
+                        res = f[0].split(" all=")[0].strip()
+                        if res.startswith("exc="):
+                            what = f"renew_address() raised {res[4:]}"
+                    if not seen and not what:
+                        what = (f"the joiner (ID {nid_}) did not take the address {oct(good[0])} offered below its contact {oct(contact_)} "
+                                "with its own ID (no double-check lookup from that address was transmitted)")
+                    if what:
+                        out.append(Finding(l, what, {}))
+                    continue
+                for k, part in enumerate(parts):
+                    f = part.split(" ~ ")
+                    res = f[0].split(" all=")[0].strip()
+                    if res.startswith("exc="):
+                        what = f"op {k} raised {res[4:]}"
+                        break
+                    if k == len(parts) - 1 and res != "N":
+                        what = f"renew_address() returned {res} although no acceptable response arrived"
+                    if len(f) == 4 and f[3] != "[]":
+                        for rec in f[3][1:-1].split(","):
+                            data = rec.rsplit("x", 1)[0].split("/")[-1]
+                            if len(data) >= 16 and data[0:4] != "2409":
+                                frm = int(data[2:4] + data[0:2], 16)
+                                what = (f"the joiner transmitted a frame from address {oct(frm)} (type {int(data[12:14], 16)}): it accepted an "
+                                        "address response that carried another node's ID or an address not below the contact")
+                    if len(f) > 1 and " all=" in f[1] and f[1].split(" all=")[1].strip().split("/")[1] != str(DEFAULT):
+                        what = what or f"op {k}: the joiner's address is {f[1].split(' all=')[1].strip().split('/')[1]}"
+                if what:
+                    out.append(Finding(l, what, {}))
+                continue
             if not l.startswith("net ") or " master 0 0" not in l:
                 continue
             names, parts = l.split(" ; "), io.split(" ; ")
+            forced = set()   # nodes whose lease the master was told to drop (release_address(addr) on the master)
             idof, order = {}, []
             what = None
             addr = {}
@@ -153,7 +277,16 @@ class C17(PropCheck):
                 broken = [y for y in order if y != "m" and prev.get(y, DEFAULT) != DEFAULT and not conn(y)]
                 if broken and x in broken:
                     continue   # this node's route to the master is gone (an ancestor released its address): nothing is promised
+                if t[1] == "release_address" and x == "m":
+                    tgt = next((n for n in order if n != "m" and prev.get(n, DEFAULT) == int(t[2]) and n not in forced), None)
+                    if res != ("T" if tgt else "F") and int(t[2]) != 0:
+                        what = f"op {k}: master.release_address({oct(int(t[2]))}) returned {res} (lease held by {tgt})"
+                    if tgt and res == "T":
+                        forced.add(tgt)
+                    continue
                 if t[1] == "renew":
+                    if res != "N":
+                        forced.discard(x)
                     if res == "N":
                         what = f"op {k}: {x} (ID {idof[x]}).renew_address() returned None on a loss-free medium with the master running"
                     else:
@@ -171,7 +304,7 @@ class C17(PropCheck):
                         exp = "0"
                     elif x != "m" and not conn(x):
                         exp = "-2"
-                    elif who is not None and conn(who):
+                    elif who is not None and conn(who) and who not in forced:
                         exp = str(prev[who])
                     else:
                         exp = "-2"
@@ -185,7 +318,7 @@ class C17(PropCheck):
                     elif x != "m" and not conn(x):
                         exp = "-2"
                     else:
-                        who = next((n for n in order if n != "m" and conn(n) and prev[n] == int(t[2])), None)
+                        who = next((n for n in order if n != "m" and conn(n) and n not in forced and prev[n] == int(t[2])), None)
                         exp = str(idof[who]) if who else "-2"
                         if any(prev.get(y) == int(t[2]) for y in broken):
                             exp = res   # the lease of a node whose route is gone still is the master's mapping
@@ -197,12 +330,15 @@ class C17(PropCheck):
                     elif addr.get(x) != DEFAULT:
                         what = f"op {k}: after release_address() the node's address is {oct(addr.get(x, 0))}, not 0o4444"
                 elif t[1] == "check_connection":
-                    if res != ("T" if conn(x) else "F"):
-                        what = f"op {k}: {x}.check_connection({t[2]},{t[3]}) returned {res} (connected: {conn(x)})"
+                    # with ping_master the master's table decides (a lease dropped by the master: not connected)
+                    want = conn(x) and not (t[3] == "T" and x in forced) or idof.get(x) == 0
+                    if res != ("T" if want else "F"):
+                        what = (f"op {k}: {x}.check_connection({t[2]},{t[3]}) returned {res} (holds an address with a live route: {conn(x)}, "
+                                f"lease dropped by the master: {x in forced})")
                 elif t[1] == "send":
                     q = int(t[2])
                     who = "m" if q == 0 else next((n for n in order if idof.get(n) == q and n != "m"), None)
-                    ok = conn(x) and who is not None and (who == "m" or conn(who))
+                    ok = conn(x) and who is not None and (who == "m" or (conn(who) and who not in forced))
                     if ok and who != x:
                         if res != "T":
                             what = f"op {k}: {x}.send(ID {q}) returned {res} although both nodes are connected"
